@@ -50,6 +50,8 @@ class _TransactionBase:
                 table.remove_object_no_lock(transaction_item.old)
             else:
                 table = self._mdib.context_states if transaction_item.new.is_context_state else self._mdib.states
+            if transaction_item.new is None:
+                continue  # the state is deleted (write_entity of a multi state entity that no longer contains it)
             table.add_object_no_lock(transaction_item.new)
             updates_list.append(transaction_item.new.mk_copy(copy_node=False))
         return updates_list
@@ -397,6 +399,8 @@ class DescriptorTransaction(_TransactionBase):
                     # the state has also been updated directly in transaction.
                     # update descriptor version
                     old_state, new_state = state_update.old, state_update.new
+                    if new_state is None:
+                        continue  # the state is deleted by this transaction
                 else:
                     old_state = context_state
                     new_state = old_state.mk_copy()
